@@ -853,6 +853,13 @@ where
             for i in 1..D {
                 builder.assert_zero(sel_bool * a[i]);
             }
+            // `out = a`: the checked value must be the one the row puts on the witness bus.
+            // When the row is the first use of a hint output / private input, only `out`
+            // carries a bus interaction (`a` is skipped to avoid double creation), so without
+            // this tie the boolean constraint would bind a free cell instead of the witness.
+            for i in 0..D {
+                builder.assert_zero(sel_bool * (a[i] - out[i]));
+            }
 
             // ── MUL_ADD: a * b + c - out = 0 ────────────────────────────
             for i in 0..D {
